@@ -33,7 +33,7 @@ def gen(seed, tier):
             if rng.random() < 0.3:
                 # declared in a less usual way: plain subclass of a service class, or a subclass
                 # decorated again - with the same or another flavour (the last decoration counts)
-                spec["svc_class"] = rng.choice(["subclass", "redecorated-same", "redecorated-other"])
+                spec["svc_class"] = rng.choice(["subclass", "redecorated-same", "redecorated-other", "falsy", "empty"])
         else:
             spec["args"] = rng.choice(ARGS)
             spec["kwargs"] = rng.choice(KWARGS)
